@@ -5,6 +5,7 @@ import sys
 
 from . import alias, knobs, ops, pools
 from .common import canon, digest, is_adaptix_file, short_file
+from .sig import outcome as sig_outcome
 from .sig import sig_value, tname
 
 mon = sys.monitoring
@@ -87,7 +88,7 @@ FAMILY_W = [6, 3, 2, 3, 1, 1, 2, 3, 3, 5, 1]
 C11_RECIPES = ["plain", "plain", "plain", "nm_camel", "nm_camel_shared", "nm_as_list", "nm_omit_default", "nm_extra_forbid",
                "nm_extra_collect", "chain_node_children", "chain_int_last", "chain_int_shared", "scoped_int",
                "scoped_node_value", "scoped_linked_head", "enum_by_name", "validator_inner", "dumper_int_str", "dumper_scoped",
-               "asis_m2", "unsupported_fix", "nm_snake_only", "chain_int_first", "nm_extra_forbid_all", "flag_names", "nm_scoped_upper", "nm_scoped_upper", "nm_scoped_node", "nm_maps", "nm_maps", "nm_saturator", "nm_paths"]
+               "asis_m2", "unsupported_fix", "nm_snake_only", "chain_int_first", "nm_extra_forbid_all", "flag_names", "enum_by_name_all", "nm_scoped_upper", "nm_scoped_upper", "nm_scoped_node", "nm_maps", "nm_maps", "nm_saturator", "nm_paths"]
 REPLACE_OPTS = [{"strict_coercion": True}, {"strict_coercion": False}, {"debug_trail": "ALL"}, {"debug_trail": "FIRST"},
                 {"debug_trail": "DISABLE"}, {"hide_traceback": False}, {"strict_coercion": False, "debug_trail": "FIRST"}]
 CONV_CALL_RECIPES = ["link_b_c", "link_a_c", "coerce_int_str", "coerce_int_hash", "link_title", "const_factory", "link_b_cs",
@@ -252,6 +253,8 @@ def gen_c11(seed, cfg=None):  # noqa: C901, PLR0912, PLR0915
                 callables.append(("get_loader", t))
             elif rr < 0.92:
                 op = {"op": "dump", "h": h, "t": t, "o": rng.choice(pools.dump_battery(t))}
+                if rng.random() < 0.12:
+                    op["infer"] = True        # dump(obj) with the type inferred from the object
             else:
                 op = {"op": "get_dumper", "h": h, "t": t}
                 callables.append(("get_dumper", t))
@@ -262,8 +265,10 @@ def gen_c11(seed, cfg=None):  # noqa: C901, PLR0912, PLR0915
         cands = [i for i, op in enumerate(prog[:-1]) if op["op"] in CREATION_OPS]
         rng.shuffle(cands)
         for i in sorted(cands[:rng.choice([1, 1, 2])]):
-            faults.append({"kind": "interrupt", "op": i, "frac": rng.random(),
-                           "exc": "base" if rng.random() < 0.7 else "recursion"})
+            fl = {"kind": "interrupt", "op": i, "frac": rng.random(), "exc": "base" if rng.random() < 0.7 else "recursion"}
+            if prog[i]["op"] in ("load", "dump") and rng.random() < 0.35:
+                fl = {"kind": "interrupt", "op": i, "when": "call", "k": rng.randint(1, 25), "exc": fl["exc"]}
+            faults.append(fl)
     return {"engine": "histsim", "profile": "c11", "seed": seed, "handles": handles, "ops": prog, "faults": faults,
             "norm_cache": rng.choice([1, 2, 8, 128, 128]), "focus": focus}
 
@@ -277,7 +282,7 @@ C20_TYPES = ["ListInt", "ListListInt", "DictStrListInt", "DDictStrListInt", "Set
              "TupLit01"]
 C20_RECIPES = ["plain", "plain", "nm_extra_collect", "nm_extra_collect", "nm_omit_default", "nm_as_list", "nm_camel",
                "nm_extra_forbid", "validator_inner", "chain_node_children", "flag_names", "flag_names", "nm_saturator", "nm_saturator", "nm_paths", "nm_paths"]
-C20_CONV = ["CLinkStr", "ImplExtra", "ImplTags", "ImplTags","Outer", "OuterSame", "Inner", "InnerSame", "ListInner", "GIntGInt", "OptInner", "DictInner", "InnerTags", "M1M2",
+C20_CONV = ["CDq", "CDq", "OptListInner", "OptListInner", "OptDictInner", "CLinkStr", "ImplExtra", "ImplTags", "ImplTags","Outer", "OuterSame", "Inner", "InnerSame", "ListInner", "GIntGInt", "OptInner", "DictInner", "InnerTags", "M1M2",
             "CLink", "M1Str", "CTags", "CTags", "Ann", "Ann", "AnnList", "AnnDict"]
 
 
@@ -304,9 +309,10 @@ def gen_c20(seed, cfg=None):  # noqa: C901, PLR0912
                 callables.append(("get_converter", c))
             else:
                 op = {"op": "convert", "h": 1, "conv": c, "o": rng.choice(pools.CONVERTERS[c][2])}
-            if c in ("CLink", "M1Str", "CTags", "CLinkStr") and rng.random() < 0.8:
+            if c in ("CLink", "M1Str", "CTags", "CLinkStr", "CDq") and rng.random() < 0.8:
                 op["rcp"] = rng.choice({"CLink": ["link_b_c", "link_a_c"], "M1Str": ["coerce_int_str", "coerce_int_hash"],
-                                        "CTags": ["const_factory"], "CLinkStr": ["link_b_cs", "coerce_int_str"]}[c])
+                                        "CTags": ["const_factory"], "CLinkStr": ["link_b_cs", "coerce_int_str"],
+                                        "CDq": ["const_factory_dq"]}[c])
                 if rng.random() < 0.5:
                     op["rcp_shared"] = True
         elif r < 0.48 and callables:
@@ -341,7 +347,10 @@ def gen_c20(seed, cfg=None):  # noqa: C901, PLR0912
         cands = [i for i, op in enumerate(prog) if op["op"] in ("load", "dump", "convert", "call")]
         rng.shuffle(cands)
         for i in sorted(cands[:1]):
-            faults.append({"kind": "interrupt", "op": i, "frac": rng.random(), "exc": rng.choice(["base", "recursion"])})
+            fl = {"kind": "interrupt", "op": i, "frac": rng.random(), "exc": rng.choice(["base", "recursion"])}
+            if prog[i]["op"] in ("load", "dump") and rng.random() < 0.6:
+                fl = {"kind": "interrupt", "op": i, "when": "call", "k": rng.randint(1, 25), "exc": fl["exc"]}
+            faults.append(fl)
     return {"engine": "histsim", "profile": "c20", "seed": seed, "handles": handles, "ops": prog, "faults": faults,
             "norm_cache": 128, "focus": focus}
 
@@ -368,7 +377,7 @@ def refs_needed(scn):
     descs = ops.static_ref_descs(scn["handles"], _plain_ops(scn))
     out = [d for d in descs if d is not None]
     for f in scn.get("faults", []):
-        if "frac" in f and descs[f["op"]] is not None:
+        if "frac" in f and f.get("when") != "call" and descs[f["op"]] is not None:
             out.append(_entries_desc(descs[f["op"]]))
     return out
 
@@ -399,6 +408,8 @@ def _do(retort, d):
     if kind == "load":
         return outcome(retort.load, pools.datum(d["d"]), pools.TYPES[d["t"]])
     if kind == "dump":
+        if d.get("infer"):
+            return outcome(retort.dump, pools.obj(d["o"]))
         return outcome(retort.dump, pools.obj(d["o"]), pools.TYPES[d["t"]])
     if kind == "get_loader":
         return outcome(retort.get_loader, pools.TYPES[d["t"]])
@@ -484,14 +495,31 @@ def execute(scn, refs):  # noqa: C901, PLR0912, PLR0915
                 continue
             f = faults.get(i)
             arg_snap = None
-            if f is not None and descs[i] is not None:
+            late = f is not None and f.get("when") == "call" and kind in ("load", "dump") and not plain[i].get("infer")
+            if late:
+                # the fault belongs to the *call*: obtain the loader / dumper first, unarmed, then interrupt the call at
+                # one of its first function entries (element loaders, generated code, validators)
+                k = f["k"]
+                h = world.handles[plain[i]["h"]]
+                getter = h.get_loader if kind == "load" else h.get_dumper
+                g_out, fn = sig_outcome(getter, pools.TYPES[plain[i]["t"]])
+                arg = pools.datum(plain[i]["d"]) if kind == "load" else pools.obj(plain[i]["o"])
+                arg_snap = sig_value(arg)
+                if g_out[0] == "ok":
+                    it.arm(k, SimInterrupt if f.get("exc", "base") == "base" else SimRecursionError)
+                    out, res = sig_outcome(fn, arg)
+                else:
+                    out, res = g_out, None
+            elif f is not None and descs[i] is not None:
                 n_entries = refs[canon(_entries_desc(descs[i]))] if "frac" in f else None
                 k = f["k"] if "k" in f else 1 + int(f["frac"] * max(0, n_entries - 1)) if n_entries else 1
                 it.arm(k, SimInterrupt if f.get("exc", "base") == "base" else SimRecursionError)
             pre_hook = None
             if c20 and kind in ("load", "dump", "convert", "call"):
                 pre_hook = True
-            if pre_hook:
+            if late:
+                pass
+            elif pre_hook:
                 out, res, arg, arg_snap = _run_with_snapshot(world, plain[i])
             else:
                 out, res, arg = world.run(plain[i])
@@ -633,7 +661,7 @@ def to_replay(scn, result):
     for f in scn.get("faults", []):
         if f["op"] in fired:
             nf.append({"kind": "interrupt", "op": f["op"], "k": fired[f["op"]]["k"], "exc": f.get("exc", "base"),
-                       "site": fired[f["op"]]["at"]})
+                       "site": fired[f["op"]]["at"], **({"when": "call"} if f.get("when") == "call" else {})})
     s["faults"] = nf
     return s
 
